@@ -33,6 +33,9 @@ pub enum GenerateError {
 
     /// A function was declared but never given a body so there is nothing to export
     FunctionNotDefined,
+
+    /// The mips view of a texture only exists as part of a load expression so the type has no name to export
+    UnsupportedMipsIntermediate,
 }
 
 /// Generate HLSL ast from ir module
@@ -1077,7 +1080,7 @@ fn generate_type_impl(
                     // We do not expect intermediate values for mips to get exported
                     // It's possible to make shaders in HLSL that reference these but these are all silly use cases
                     // Trying to use mips-slice will likely break HLSL anyway as you can't make intermediates of these
-                    panic!("trying to export Texture2D.mips intermediates");
+                    return Err(GenerateError::UnsupportedMipsIntermediate);
                 }
 
                 Texture2DArray(ty) => build_single_param("Texture2DArray", ty, context)?,
@@ -1085,7 +1088,7 @@ fn generate_type_impl(
                     // We do not expect intermediate values for mips to get exported
                     // It's possible to make shaders in HLSL that reference these but these are all silly use cases
                     // Trying to use mips-slice will likely break HLSL anyway as you can't make intermediates of these
-                    panic!("trying to export Texture2DArray.mips intermediates");
+                    return Err(GenerateError::UnsupportedMipsIntermediate);
                 }
 
                 RWTexture2D(ty) => build_single_param("RWTexture2D", ty, context)?,
@@ -1098,7 +1101,7 @@ fn generate_type_impl(
 
                 Texture3D(ty) => build_single_param("Texture3D", ty, context)?,
                 Texture3DMips(_) | Texture3DMipsSlice(_) => {
-                    panic!("trying to export Texture3D.mips intermediates");
+                    return Err(GenerateError::UnsupportedMipsIntermediate);
                 }
                 RWTexture3D(ty) => build_single_param("RWTexture3D", ty, context)?,
 
